@@ -949,8 +949,9 @@ func veBlockedGoroutines() string {
 		lines := strings.Split(g, "\n")
 		keep := []string{lines[0]}
 		frames := 0
+		full := strings.Contains(lines[0], "syscall") // where exactly a job sits in the kernel matters
 		for i := 1; i+1 < len(lines); i += 2 {
-			if strings.Contains(lines[i], "spq/pkappa2") && !strings.HasPrefix(lines[i], "created by") {
+			if full || (strings.Contains(lines[i], "spq/pkappa2") && !strings.HasPrefix(lines[i], "created by")) {
 				keep = append(keep, lines[i], lines[i+1])
 				frames++
 			}
